@@ -22,7 +22,10 @@ EXTENDS Naturals, Sequences, FiniteSets, TLC, Json, GenExecFrag
 
 CONSTANTS KindSets      \* the sets of fragment kinds to explore
 
-Styles == {"retptr", "retval", "arg"}
+\* retptr / retval / arg: the three documented shapes; recvptr: return style with :recv (the source is the
+\* receiver); argrev: :style arg with :reverse (the copy goes INTO the method's source operand; additional
+\* arguments are illegal there and which operand a hook sees is undocumented, so such programs have neither)
+Styles == {"retptr", "retval", "arg", "recvptr", "argrev"}
 HookShapes == {[on |-> FALSE, dstPtr |-> FALSE, srcPtr |-> FALSE, err |-> FALSE, args |-> FALSE],
                [on |-> TRUE, dstPtr |-> TRUE, srcPtr |-> TRUE, err |-> FALSE, args |-> FALSE],
                [on |-> TRUE, dstPtr |-> FALSE, srcPtr |-> FALSE, err |-> FALSE, args |-> TRUE],
@@ -38,7 +41,8 @@ Programs == {[kinds |-> ks, style |-> s, pre |-> h[1], post |-> h[2], retErr |->
                ks \in KindSets, s \in Styles, h \in HookPairs, e \in BOOLEAN}
 \* C07 (static): an error-capable callee is never wired into a function without error result -
 \* such programs do not exist (the tool rejects them; judged by case replay)
-Legal(p) == NeedsErr(p.kinds, p.pre, p.post) => p.retErr
+Legal(p) == /\ (NeedsErr(p.kinds, p.pre, p.post) => p.retErr)
+            /\ (p.style = "argrev" => ~p.pre.on /\ ~p.post.on /\ "arg" \notin p.kinds)
 
 VARIABLES prog, phase, pending, failed, calls
 vars == <<prog, phase, pending, failed, calls>>
